@@ -128,6 +128,22 @@ Proof. intros. unfold has_ev. rewrite evs_app. simpl. destruct (evs b); reflexiv
 Lemma has_ev_app_eos : forall b, has_ev (b ++ [EOS]) = has_ev b.
 Proof. intros. unfold has_ev. rewrite evs_app. simpl. rewrite app_nil_r. reflexivity. Qed.
 
+Lemma add_known_in : forall u l, In u (add_known u l).
+Proof.
+  intros u l. unfold add_known. destruct (existsb (Nat.eqb u) l) eqn:E; [|left; reflexivity].
+  apply existsb_exists in E. destruct E as (x & I & Q). apply Nat.eqb_eq in Q. subst. exact I.
+Qed.
+
+Lemma add_known_incl : forall u l, incl l (add_known u l).
+Proof. intros u l. unfold add_known. destruct (existsb (Nat.eqb u) l); [apply incl_refl|apply incl_tl, incl_refl]. Qed.
+
+Lemma add_known_nodup : forall u l, NoDup l -> NoDup (add_known u l).
+Proof.
+  intros u l N. unfold add_known. destruct (existsb (Nat.eqb u) l) eqn:E; [exact N|].
+  constructor; [|exact N]. intros I. assert (existsb (Nat.eqb u) l = true); [|congruence].
+  apply existsb_exists. exists u. split; [exact I|apply Nat.eqb_refl].
+Qed.
+
 (* ---------- the invariant ---------- *)
 Definition nstream (o : ust) : nat := match stream o with Some _ => 1 | None => 0 end.
 
@@ -141,11 +157,12 @@ Record InvU (s : st) (u : uid) : Prop := mkInvU {
   i_press : has_ev (backlog (obj s u)) = true -> exists b, stream (obj s u) = Some (b, true);
   i_known : stream (obj s u) <> None -> In u (known s);
   i_ins : forall e, pc s = WInsert u e -> stream (obj s u) = None;
-  i_drained : (ph s = PDepleted \/ ph s = PClosed) -> timedout s = false -> cancel_pc s = WIdle ->
+  i_drained : (ph s = PDepleted \/ ph s = PClosed) -> timedout s = false -> in_spawn (cancel_pc s) = false ->
               stream (obj s u) = None
 }.
 
 Record InvG (s : st) : Prop := mkInvG {
+  g_nodup : NoDup (known s);
   g_limit : forall L, limit s = Some L -> running s <= L;
   g_pc : ph s <> PAlive -> pc s = cancel_pc s;
   g_to : ~ (ph s = PDepleted \/ ph s = PClosed) -> timedout s = false
@@ -156,7 +173,7 @@ Definition Inv (s : st) : Prop := InvG s /\ forall u, InvU s u.
 Lemma Inv_init : forall lim, Inv (init lim).
 Proof.
   intros lim. split.
-  - constructor; simpl; intros; try reflexivity; try congruence.
+  - constructor; simpl; intros; try reflexivity; try congruence; try constructor.
     unfold running; simpl. destruct lim; [|discriminate]. injection H as <-. lia.
   - intros u. constructor; simpl; intros; try reflexivity; try discriminate; try congruence.
     apply eos_ok_nil.
@@ -210,7 +227,7 @@ Lemma InvU_frame : forall s s' v,
   (forall e, pc s' = WInsert v e -> pc s = WInsert v e) ->
   incl (known s) (known s') ->
   eos_ok (ph s') (backlog (obj s v)) ->
-  ((ph s' = PDepleted \/ ph s' = PClosed) -> timedout s' = false -> cancel_pc s' = WIdle ->
+  ((ph s' = PDepleted \/ ph s' = PClosed) -> timedout s' = false -> in_spawn (cancel_pc s') = false ->
      stream (obj s v) = None) ->
   InvU s' v.
 Proof.
@@ -267,7 +284,7 @@ Lemma pres_arrive_new2 : forall s u e s', Inv s -> step s (LArriveNew2 u e) = So
 Proof.
   intros s u e s' [HG HU] H. step_inv H. subst u0 e0.
   split.
-  - destruct HG. constructor; simpl; auto. intros N. congruence.
+  - destruct HG. constructor; simpl; auto using add_known_nodup. intros N. congruence.
   - intros v. destruct (Nat.eq_dec v u) as [->|N].
     + pose proof (i_ins _ _ (HU u) _ Heqw) as SN.
       destruct (HU u). unfold backlog, nstream, unsp in *. rewrite SN, Heqw in *.
@@ -280,13 +297,13 @@ Proof.
       * exact i_pend0.
       * exact i_act0.
       * eauto.
-      * intros _. left. reflexivity.
+      * intros _. apply add_known_in.
       * intros e0 E. discriminate.
       * intros [D|D]; congruence.
     + other HU v N.
       * unfold unsp. simpl. rewrite Heqw. apply Nat.eqb_neq in N. rewrite Nat.eqb_sym, N. reflexivity.
       * intros e0 E. discriminate.
-      * apply incl_tl, incl_refl.
+      * apply add_known_incl.
 Qed.
 
 Ltac easy_goals :=
@@ -491,7 +508,7 @@ Proof.
         assert (active s = []) as EA by (destruct (active s); [reflexivity|simpl in E2; lia]).
         rewrite EA in i_act0. simpl in *.
         assert (unsp s v = 0) as U0.
-        { apply unsp_idle. destruct HG. rewrite g_pc0 by congruence. exact C. }
+        { destruct HG. unfold unsp. rewrite g_pc0 by congruence. destruct (cancel_pc s); try reflexivity. discriminate C. }
         unfold nstream in *. destruct (stream (obj s v)); [lia|reflexivity].
 Qed.
 
@@ -819,7 +836,7 @@ Qed.
 
 (* ---------- draining on shutdown ---------- *)
 Theorem drain : forall lim tr s u, run (init lim) tr = Some s ->
-  (ph s = PDepleted \/ ph s = PClosed) -> timedout s = false -> cancel_pc s = WIdle ->
+  (ph s = PDepleted \/ ph s = PClosed) -> timedout s = false -> in_spawn (cancel_pc s) = false ->
   intact (obj s u) = true -> processed (obj s u) = arrived (obj s u).
 Proof.
   intros lim tr s u R D T C I. destruct (reach_Inv _ _ _ R) as [_ HU]. destruct (HU u).
@@ -875,3 +892,281 @@ Example example_race_state :
     evs (backlog (obj s 0)) = [2] /\ step s (LTimeout 0) = Some s /\
     (forall e p, step s (LGet 1 e p) = None) /\ step s (LStart 1) = None.
 Proof. eexists. split; [vm_compute; reflexivity|]. vm_compute. repeat split. Qed.
+
+(* =====================================================================================
+   Deadlock freedom: an unprocessed event never waits on nothing
+   ===================================================================================== *)
+Lemma live_true : forall s, ph s <> PClosed -> workers_live s = true.
+Proof. intros s H. unfold workers_live. destruct (ph s); try reflexivity. congruence. Qed.
+
+Lemma end_enabled : forall s u e r, ph s <> PClosed -> procs (obj s u) = e :: r ->
+  exists s', step s (LEnd u e) = Some s'.
+Proof.
+  intros s u e r L E. unfold step. cbv beta zeta. rewrite (live_true _ L), E. simpl.
+  rewrite Nat.eqb_refl. eauto.
+Qed.
+
+Lemma get_enabled : forall s u e b p, ph s <> PClosed -> 0 < nwait (obj s u) ->
+  stream (obj s u) = Some (Ev e :: b, p) ->
+  exists p1 s', step s (LGet u e p1) = Some s'.
+Proof.
+  intros s u e b p L W E. exists (match b with [] => false | _ => p end).
+  unfold step. cbv beta zeta. rewrite (live_true _ L), E.
+  apply Nat.ltb_lt in W. rewrite W. simpl. rewrite Nat.eqb_refl, eqb_reflx. simpl. eauto.
+Qed.
+
+(* some worker w occupies a slot: it can finish its call, take an event, or (idle) retire *)
+Lemma active_worker_moves : forall s w act, Inv s -> ph s <> PClosed -> active s = w :: act ->
+  exists l s', progress_label s l = true /\ step s l = Some s'.
+Proof.
+  intros s w act [HG HU] L EA. destruct (HU w). rewrite EA, cnt_cons_eq in i_act0.
+  destruct (procs (obj s w)) as [|e r] eqn:EP.
+  - simpl in i_act0. assert (W : 0 < nwait (obj s w)) by lia.
+    unfold nstream in *. destruct (stream (obj s w)) as [[b p]|] eqn:ES; [|simpl in *; lia].
+    destruct b as [|[e|] b'].
+    + exists (LTimeout w). eexists. split; [simpl; rewrite ES; reflexivity|].
+      unfold step. cbv beta zeta. rewrite (live_true _ L), ES. apply Nat.ltb_lt in W. rewrite W. simpl.
+      rewrite EA. simpl. rewrite Nat.eqb_refl. reflexivity.
+    + destruct (get_enabled s w e b' p L W ES) as (p1 & s' & H). exists (LGet w e p1), s'. split; [reflexivity|exact H].
+    + exists (LGetEOS w). eexists. split; [reflexivity|].
+      unfold step. cbv beta zeta. rewrite (live_true _ L), ES. apply Nat.ltb_lt in W. rewrite W. simpl.
+      rewrite EA. simpl. rewrite Nat.eqb_refl. reflexivity.
+  - destruct (end_enabled s w e r L EP) as [s' H]. exists (LEnd w e), s'. split; [reflexivity|exact H].
+Qed.
+
+Theorem no_deadlock : forall lim tr s u, run (init lim) tr = Some s ->
+  ph s <> PClosed -> (ph s = PAlive \/ in_spawn (cancel_pc s) = false) -> limit_positive s = true ->
+  intact (obj s u) = true -> processed (obj s u) <> arrived (obj s u) ->
+  exists l s', progress_label s l = true /\ step s l = Some s'.
+Proof.
+  intros lim tr s u R L PH LP I NE. pose proof (reach_Inv _ _ _ R) as HI. destruct HI as [HG HU].
+  pose proof (HU u) as IU. destruct IU.
+  destruct (procs (obj s u)) as [|e r] eqn:EP.
+  2:{ destruct (end_enabled s u e r L EP) as [s' H]. exists (LEnd u e), s'. split; [reflexivity|exact H]. }
+  assert (NB : evs (backlog (obj s u)) <> []).
+  { intros E. apply NE. rewrite <- (i_fifo0 I), E. simpl. rewrite app_nil_r. reflexivity. }
+  unfold backlog, nstream in *. destruct (stream (obj s u)) as [[b p]|] eqn:ES; [|exfalso; apply NB; reflexivity].
+  simpl in i_one0.
+  (* the head of the backlog is an event *)
+  assert (HB : exists e b', b = Ev e :: b').
+  { destruct b as [|[e|] b']; [exfalso; apply NB; reflexivity|eauto|].
+    rewrite (eos_ok_eos_head _ _ i_eos0) in NB. exfalso. apply NB. reflexivity. }
+  destruct HB as (e & b' & ->).
+  destruct (nwait (obj s u)) as [|nw] eqn:EW.
+  2:{ destruct (get_enabled s u e b' p L) as (p1 & s' & H); [lia|exact ES|].
+      exists (LGet u e p1), s'. split; [reflexivity|exact H]. }
+  destruct (npend (obj s u)) as [|np] eqn:EN.
+  - (* the watcher is inside spawn() for u *)
+    assert (U1 : unsp s u = 1) by lia. unfold unsp in U1.
+    destruct (pc s) as [| |v] eqn:EPC; try discriminate. destruct (Nat.eqb v u) eqn:EV; [|discriminate].
+    apply Nat.eqb_eq in EV. subst v.
+    assert (A : ph s = PAlive).
+    { destruct PH as [A|NS]; [exact A|]. destruct (ph s) eqn:EPH; try reflexivity;
+        destruct HG; rewrite <- g_pc0 in NS by congruence; rewrite EPC in NS; discriminate. }
+    exists (LSpawn u). eexists. split; [reflexivity|].
+    unfold step. cbv beta zeta. rewrite A, EPC. simpl. rewrite Nat.eqb_refl. reflexivity.
+  - (* u's worker waits in the scheduler *)
+    destruct (pending s) as [|v rest] eqn:EPD; [simpl in i_pend0; lia|].
+    destruct (under_limit s) eqn:UL.
+    + exists (LStart v). eexists. split; [reflexivity|].
+      unfold step. cbv beta zeta. rewrite (live_true _ L), UL, EPD. simpl. rewrite Nat.eqb_refl. reflexivity.
+    + (* limit saturated: somebody holds a slot and can move *)
+      unfold under_limit in UL. unfold limit_positive in LP. destruct (limit s) as [[|L0]|]; try discriminate.
+      apply Nat.ltb_ge in UL. unfold running in UL.
+      destruct (exiting s) as [|n] eqn:EX.
+      * destruct (active s) as [|w act] eqn:EA; [simpl in UL; lia|].
+        eapply active_worker_moves; eauto. split; assumption.
+      * exists LExit. eexists. split; [reflexivity|].
+        unfold step. cbv beta zeta. rewrite (live_true _ L), EX. reflexivity.
+Qed.
+
+(* non-vacuity of no_deadlock: object 1 waits behind the limit while worker 0 idles; the idle timeout is the move *)
+Example no_deadlock_example :
+  exists s, run (init (Some 1)) (firstn 9 tr_example) = Some s /\ ph s = PAlive /\ limit_positive s = true /\
+    intact (obj s 1) = true /\ processed (obj s 1) <> arrived (obj s 1) /\
+    progress_label s (LTimeout 0) = true /\ step s (LTimeout 0) <> None /\ step s (LStart 1) = None.
+Proof. eexists. split; [vm_compute; reflexivity|]. vm_compute. repeat split; discriminate. Qed.
+
+(* =====================================================================================
+   Termination of the internal activity: a variant for the progress labels
+   ===================================================================================== *)
+Lemma usum_upd_notin : forall f u o l, ~ In u l -> usum (upd f u o) l = usum f l.
+Proof.
+  induction l as [|x l IH]; simpl; intros N; [reflexivity|].
+  rewrite upd_other by (intros E; apply N; left; congruence). rewrite IH; [reflexivity|].
+  intros I. apply N. right. exact I.
+Qed.
+
+Lemma usum_upd_in : forall f u o l, NoDup l -> In u l ->
+  usum (upd f u o) l + uweight (f u) = usum f l + uweight o.
+Proof.
+  induction l as [|x l IH]; simpl; intros N I; [contradiction|].
+  inversion N as [|? ? NI ND]; subst. destruct (Nat.eq_dec x u) as [->|NE].
+  - rewrite upd_same, usum_upd_notin by exact NI. lia.
+  - destruct I as [E|I]; [congruence|]. rewrite upd_other by exact NE. specialize (IH ND I). lia.
+Qed.
+
+Lemma usum_upd_le : forall f u o l, uweight o <= uweight (f u) -> usum (upd f u o) l <= usum f l.
+Proof.
+  induction l as [|x l IH]; simpl; intros L; [lia|]. specialize (IH L).
+  destruct (Nat.eq_dec x u) as [->|NE]; [rewrite upd_same|rewrite upd_other by exact NE]; lia.
+Qed.
+
+Lemma usum_upd_lt : forall f u o l, NoDup l -> In u l -> uweight o < uweight (f u) ->
+  usum (upd f u o) l < usum f l.
+Proof. intros f u o l N I L. pose proof (usum_upd_in f u o l N I). lia. Qed.
+
+Lemma stream_some_known : forall s u x, InvU s u -> stream (obj s u) = Some x -> In u (known s).
+Proof. intros s u x IU E. apply (i_known _ _ IU). congruence. Qed.
+
+Theorem progress_decreases : forall s l s', Inv s -> progress_label s l = true -> step s l = Some s' ->
+  work_left s' < work_left s.
+Proof.
+  intros s l s' [HG HU] P H. pose proof (g_nodup _ HG) as ND.
+  destruct l; try discriminate P; unfold work_left.
+  - (* ArriveNew2 *) step_inv H. subst u0 e0.
+    pose proof (i_ins _ _ (HU u) _ Heqw) as SN. destruct (HU u).
+    unfold nstream in i_one0. rewrite SN in i_one0.
+    assert (EP : procs (obj s u) = []) by (destruct (procs (obj s u)); [reflexivity|simpl in *; lia]).
+    simpl. rewrite ?Heqw, ?EP. simpl.
+    match goal with |- context [usum (upd _ _ ?o) (add_known _ _)] =>
+      assert (usum (upd (obj s) u o) (add_known u (known s)) <= usum (obj s) (known s) + 3) as KEY; [|lia];
+      pose proof (usum_upd_in (obj s) u o (known s) ND) as U end.
+    unfold add_known. destruct (existsb (Nat.eqb u) (known s)) eqn:EX.
+    + apply existsb_exists in EX. destruct EX as (x & I & Q). apply Nat.eqb_eq in Q. subst x.
+      specialize (U I). unfold uweight, backlog in U. simpl in U. rewrite SN, EP in U. simpl in U. lia.
+    + simpl. rewrite upd_same. rewrite usum_upd_notin.
+      * unfold uweight, backlog. simpl. lia.
+      * intros I. assert (existsb (Nat.eqb u) (known s) = true); [|congruence].
+        apply existsb_exists. exists u. split; [exact I|apply Nat.eqb_refl].
+  - (* Spawn *) step_inv H. subst u0. simpl. rewrite ?Heqw. simpl. rewrite app_length. simpl.
+    match goal with |- context [usum (upd _ _ ?o) _] =>
+      assert (usum (upd (obj s) u o) (known s) <= usum (obj s) (known s)) by (apply usum_upd_le; unfold uweight, backlog; simpl; lia) end.
+    lia.
+  - (* Start *) step_inv H. subst u0. simpl. rewrite ?Heql. simpl.
+    match goal with |- context [usum (upd _ _ ?o) _] =>
+      assert (usum (upd (obj s) u o) (known s) <= usum (obj s) (known s)) by (apply usum_upd_le; unfold uweight, backlog; simpl; lia) end.
+    lia.
+  - (* Get *) step_inv H. subst e0. simpl. unfold set_obj. simpl.
+    match goal with |- context [usum (upd _ _ ?o) _] =>
+      assert (usum (upd (obj s) u o) (known s) < usum (obj s) (known s)) end.
+    { apply usum_upd_lt; [exact ND|eapply stream_some_known; eauto|].
+      unfold uweight, backlog. simpl. rewrite Heqo. simpl. rewrite app_length. simpl. lia. }
+    lia.
+  - (* GetEOS *) step_inv H. match goal with R : remove1 u (active s) = Some _ |- _ => rename R into HR end.
+    simpl. pose proof (remove1_length _ _ _ HR) as LA.
+    match goal with |- context [usum (upd _ _ ?o) _] =>
+      assert (usum (upd (obj s) u o) (known s) <= usum (obj s) (known s)) end.
+    { apply usum_upd_le. unfold uweight, backlog. simpl. lia. }
+    unfold uid, ev in *. lia.
+  - (* Timeout of an idle worker *) simpl in P. step_inv H;
+      try discriminate P;
+      try (match goal with E : stream (obj s u) = Some _ |- _ => rewrite E in P end; discriminate P).
+    match goal with R : remove1 u (active s) = Some _ |- _ => rename R into HR end.
+    simpl. pose proof (remove1_length _ _ _ HR) as LA.
+    match goal with |- context [usum (upd _ _ ?o) _] =>
+      assert (usum (upd (obj s) u o) (known s) <= usum (obj s) (known s)) end.
+    { apply usum_upd_le. unfold uweight, backlog. simpl. lia. }
+    unfold uid, ev in *. lia.
+  - (* End *) step_inv H.
+    match goal with R : remove1 e _ = Some _ |- _ =>
+      destruct (remove1_single _ _ _ R (procs_le1 _ _ (HU u))) as [HP ->] end.
+    simpl. unfold set_obj. simpl.
+    match goal with |- context [usum (upd _ _ ?o) _] =>
+      assert (usum (upd (obj s) u o) (known s) < usum (obj s) (known s)) end.
+    { destruct (HU u). unfold nstream in i_one0. rewrite HP in i_one0. simpl in i_one0.
+      destruct (stream (obj s u)) as [x|] eqn:ES; [|lia].
+      apply usum_upd_lt; [exact ND|apply i_known0; congruence|].
+      unfold uweight, backlog. simpl. rewrite ES, HP. simpl. lia. }
+    lia.
+  - (* Exit *) step_inv H. simpl. lia.
+Qed.
+
+(* a run made of progress labels only *)
+Fixpoint progress_run (s : st) (tr : list label) : option st :=
+  match tr with
+  | [] => Some s
+  | l :: tr' => if progress_label s l then match step s l with Some s' => progress_run s' tr' | None => None end
+                else None
+  end.
+
+Theorem progress_bounded : forall tr s s', Inv s -> progress_run s tr = Some s' ->
+  List.length tr + work_left s' <= work_left s /\ Inv s' /\ run s tr = Some s'.
+Proof.
+  induction tr as [|l tr IH]; simpl; intros s s' HI H.
+  - injection H as <-. auto.
+  - destruct (progress_label s l) eqn:P; [|discriminate]. destruct (step s l) as [s1|] eqn:E; [|discriminate].
+    pose proof (progress_decreases _ _ _ HI P E) as D. pose proof (step_Inv _ _ _ HI E) as HI1.
+    destruct (IH _ _ HI1 H) as (B & I' & R). split; [lia|]. split; [exact I'|]. exact R.
+Qed.
+
+Lemma progress_run_ph : forall tr s s', progress_run s tr = Some s' ->
+  ph s' = ph s /\ cancel_pc s' = cancel_pc s /\ limit s' = limit s.
+Proof.
+  induction tr as [|l tr IH]; simpl; intros s s' H.
+  - injection H as <-. auto.
+  - destruct (progress_label s l) eqn:P; [|discriminate]. destruct (step s l) as [s1|] eqn:E; [|discriminate].
+    destruct (IH _ _ H) as (A & B & C). rewrite A, B, C.
+    destruct l; try discriminate P; step_inv E; auto.
+Qed.
+
+(* Liveness for EVERY scheduler: from a reachable state, whatever internal steps are taken (in any order,
+   by any object), there are at most work_left s of them, and when none is possible any more, every object
+   whose processor never failed has all its arrived events processed. *)
+Theorem eventually_processed : forall lim tr0 s tr s', run (init lim) tr0 = Some s ->
+  ph s <> PClosed -> (ph s = PAlive \/ in_spawn (cancel_pc s) = false) -> limit_positive s = true ->
+  progress_run s tr = Some s' ->
+  List.length tr <= work_left s /\
+  ((forall l, progress_label s' l = true -> step s' l = None) ->
+   forall u, intact (obj s' u) = true -> processed (obj s' u) = arrived (obj s' u)).
+Proof.
+  intros lim tr0 s tr s' R L PH LP PR. pose proof (reach_Inv _ _ _ R) as HI.
+  destruct (progress_bounded _ _ _ HI PR) as (B & _ & R').
+  split; [lia|]. intros Q u I.
+  destruct (list_eq_dec Nat.eq_dec (processed (obj s' u)) (arrived (obj s' u))) as [E|NE]; [exact E|exfalso].
+  destruct (progress_run_ph _ _ _ PR) as (A1 & A2 & A3).
+  assert (R2 : run (init lim) (tr0 ++ tr) = Some s').
+  { clear - R R'. revert R. generalize (init lim). induction tr0 as [|l t IH]; simpl; intros s0 R.
+    - injection R as ->. exact R'.
+    - destruct (step s0 l); [apply IH; exact R|discriminate]. }
+  destruct (no_deadlock lim (tr0 ++ tr) s' u R2) as (l & s2 & P & S); try assumption.
+  - rewrite A1. exact L.
+  - rewrite A1, A2. exact PH.
+  - unfold limit_positive in *. rewrite A3. exact LP.
+  - rewrite (Q l P) in S. discriminate.
+Qed.
+
+(* ---------- non-vacuity of the liveness and drain statements ---------- *)
+(* from the race state of tr_example: the internal steps that remain, none enabled afterwards that matters;
+   7 steps taken, work_left was large enough, and both objects end fully processed *)
+Definition tr_rest : list label :=
+  [LGet 0 2 false; LEnd 0 2; LTimeout 0; LExit; LStart 1; LGet 1 1 false; LEnd 1 1; LTimeout 1; LExit].
+
+Example eventually_processed_example :
+  exists s s', run (init (Some 1)) (firstn 10 tr_example) = Some s /\ progress_run s tr_rest = Some s' /\
+    ph s = PAlive /\ limit_positive s = true /\ work_left s = 11 /\ work_left s' = 0 /\
+    processed (obj s' 0) = [0; 2] /\ arrived (obj s' 0) = [0; 2] /\ processed (obj s' 1) = [1] /\
+    quiet s' [0; 1] true = true.
+Proof. eexists. eexists. split; [vm_compute; reflexivity|]. split; [vm_compute; reflexivity|]. vm_compute. repeat split. Qed.
+
+(* the watcher is cancelled while it holds an event of object 1 (before the insertion): draining still completes *)
+Definition tr_cancel_insert : list label :=
+  [LArriveNew1 0 0; LArriveNew2 0 0; LSpawn 0; LStart 0; LGet 0 0 false; LArriveNew1 1 1; LCancel;
+   LEnd 0 0; LPutEOS; LGetEOS 0; LExit; LDepleted].
+
+Example drain_example :
+  exists s, run (init None) tr_cancel_insert = Some s /\ ph s = PDepleted /\ timedout s = false /\
+    cancel_pc s = WInsert 1 1 /\ in_spawn (cancel_pc s) = false /\ intact (obj s 0) = true /\
+    processed (obj s 0) = [0] /\ arrived (obj s 0) = [0].
+Proof. eexists. split; [vm_compute; reflexivity|]. vm_compute. repeat split. Qed.
+
+(* a state satisfying the hypotheses of quiescent_complete with a non-trivial history *)
+Example quiescent_example :
+  exists s, run (init (Some 1)) (firstn 15 tr_example) = Some s /\ ph s = PAlive /\ intact (obj s 0) = true /\
+    (forall e p, step s (LGet 0 e p) = None) /\ (forall e, step s (LEnd 0 e) = None) /\
+    npend (obj s 0) = 0 /\ unsp s 0 = 0 /\ arrived (obj s 0) = [0; 2].
+Proof. eexists. split; [vm_compute; reflexivity|]. vm_compute. repeat split. Qed.
+
+Theorem progress_decreases_reach : forall lim tr s l s', run (init lim) tr = Some s ->
+  progress_label s l = true -> step s l = Some s' -> work_left s' < work_left s.
+Proof. intros lim tr s l s' R. exact (progress_decreases s l s' (reach_Inv lim tr s R)). Qed.
